@@ -224,7 +224,13 @@ class SyncManager(Runnable):
         need_to_sleep = True
         something_got_done = False  # shouldn't this be default False? Don't assume there will be no exceptions...
         with self.state.lock:
-            sync: SyncEntry = self.state.change(self.aging)
+            try:
+                sync: SyncEntry = self.state.change(self.aging)
+            except (ex.CloudTemporaryError, ex.CloudDisconnectedError, ex.CloudOutOfSpaceError, ex.CloudTokenError,
+                    ex.CloudNamespaceError) as e:
+                # picking the next change may query the provider (path fill-in): report like any other sync error
+                self._nmgr.notify_from_exception(SourceEnum.SYNC, e)
+                self.backoff()
             if sync:
                 log.log(TRACE, "do sync=%s", sync)
                 need_to_sleep = False
